@@ -1,4 +1,5 @@
 import FrappyModel.Klass.Config
+import FrappyModel.Klass.ConfigUnit
 /-
 C10 — a concrete instance of the datatype oracles of `Klass/Config`, used by the driver only
 (the theorems quantify over every `Ops`).  It covers what the generated classes use:
@@ -231,5 +232,29 @@ def cmdRaises (k : Name) (v : CVal) : Bool :=
 def ops : Ops CDT CVal :=
   { convert := convert, validate := validate, setProp := setProp, checkDT := checkDT, dtDefault := dtDefault,
     ownProp := ownProp, cmdProp := cmdProp, cmdRaises := cmdRaises, limitDT := limitDT, limitDefault := limitDefault }
+
+/-! ## the main unit (datatypes.py: `DataType.unit = ''`, `HasUnit.set_main_unit`, `ArrayOf.unit` / `set_main_unit`,
+`TupleOf.set_main_unit`) -/
+
+/-- `datatype.unit`: FloatRange has the property; an array shows the unit of its members; everything else `''` -/
+def unitOf : CDT → String
+  | .double _ _ u => u
+  | .array _ _ m => unitOf m
+  | _ => ""
+
+mutual
+/-- `datatype.set_main_unit(unit)`: `if '$' in self.unit: unit.replace('$', unit)`; arrays and tuples hand it to
+their members -/
+def setMainUnit (mu : String) : CDT → CDT
+  | .double lo hi u => .double lo hi (u.replace "$" mu)
+  | .array lo hi m => .array lo hi (setMainUnit mu m)
+  | .tuple ms => .tuple (setMainUnitAll mu ms)
+  | dt => dt
+def setMainUnitAll (mu : String) : List CDT → List CDT
+  | [] => []
+  | m :: ms => setMainUnit mu m :: setMainUnitAll mu ms
+end
+
+def unitOps : UnitOps CDT := ⟨unitOf, setMainUnit⟩
 
 end Frappy.ConfigDT
